@@ -14,7 +14,7 @@ def build_mc(rt=False):
     return vlib.build_test('./internal/ircserver', out, ov, tags='verif verifrt' if rt else 'verif')
 
 
-def reexecute(binary, v, count=5):
+def reexecute(binary, v, count=5, test='TestVerifMC'):
     """Replay one violation `count` times from scratch in a fresh process."""
     sd = vlib.scratch_dir()
     p = os.path.join(sd, 'replay-in.json')
@@ -24,7 +24,7 @@ def reexecute(binary, v, count=5):
         os.remove(o)
     env = dict(os.environ)
     env.update({'VERIF_REPLAY': p, 'VERIF_REPLAY_COUNT': str(count), 'VERIF_OUT': o})
-    r = subprocess.run([binary, '-test.run', '^TestVerifMC$', '-test.timeout', '0'], env=env, cwd=sd,
+    r = subprocess.run([binary, '-test.run', '^' + test + '$', '-test.timeout', '0'], env=env, cwd=sd,
                        stdout=subprocess.PIPE, stderr=subprocess.STDOUT, text=True)
     if not os.path.exists(o):
         sys.stderr.write(r.stdout[-3000:])
